@@ -19,6 +19,7 @@ REGISTRY = {
     "C12": "sensing",
     "C14": "labels",
     "C15": "config",
+    "C17": "timeline",
     "C18": "transforms",
     "C20": "enums",
     "C06": "scores",
